@@ -8,6 +8,7 @@ from ..engine.match import Spec, find_calls, require_call, require_guard, requir
 from ..engine.repo import AnalysisError, func_body
 from ..engine.report import Check
 from ..engine.terms import C, show
+from ..engine.walker import after_completion
 from .common import CONS, HORIZON_CTX, require_seen_set, rule_effect_free, rule_split_agreement, rule_uto_apply, short
 
 SIG = "skepticoin.signing."
@@ -133,9 +134,9 @@ def r01_6(ck: Check) -> None:
         if any(c.prov == "handler" for c in r.pc):
             bad.append("returns True from an exception handler")
             continue
-        pre = [e for e in verifies if e.seq < r.seq and e.tries and e.tries == r.tries and [c.term for c in e.pc] == [c.term for c in r.pc]]
+        pre = [e for e in verifies if after_completion(e, r)]
         if not pre:
-            bad.append("a `return True` is not preceded by the verification call in the same try block")
+            bad.append("a `return True` is not preceded by the verification call in the same try block (or its else-block)")
         if not any(c.term == guard for c in r.pc):
             bad.append("`return True` is reachable for a non-SECP256k1Signature object")
     # the try around verify must not swallow into a truthy value: handlers return False
